@@ -26,6 +26,7 @@ ASSUMPTIONS = [
     "the open finding D9 (attitude +1 day exactly) is filtered by its exact signature only",
 ]
 BUDGET = {"quick": 90, "thorough": 1200}
+JOBS = {"quick": 4, "thorough": 16}
 
 
 @st.composite
@@ -40,7 +41,7 @@ def cases(draw):
 
 
 def plan(tier):
-    n = 200 if tier == "quick" else 30000
+    n = 800 if tier == "quick" else 30000
     return [{"kind": "hyp", "name": "instants", "strategy": cases(), "examples": n}]
 
 
